@@ -504,15 +504,28 @@ class BounceOracle(HOracle):
             self.violate("C14/paragraph-count", "%d failed recipients but %d paragraphs: %r" % (
                 len(failed), len(paras), [core.hx(p.split(b"\n", 1)[0][:50]) for p in paras]))
             return
-        for p, r in zip(paras, failed_sorted):
+        # the statement fixes no order of the paragraphs (reports of the two channels that arrive together are
+        # processed channel by channel): every paragraph must belong to a failed recipient not yet used, preferably
+        # the one reported earliest whose text it carries
+        def head_ok(head, want):
+            return head is not None and len(head) == len(want) and all((a == b_) or (b_ == 10 and a != 10) for a, b_ in zip(head, want))
+
+        def text_ok(r, rest):
+            text = r.bounce_text or b""
+            if text == b"(expired)":
+                return b"too long" in rest
+            return len(text) > 9000 or text_conserved(text, rest)
+        remaining = list(failed_sorted)
+        for p in paras:
             head = bouncemodel.para_recipient(p)
-            want = self.vstrip(r.addr)
-            ok_head = head is not None and len(head) == len(want) and all(
-                (a == b_) or (b_ == 10 and a != 10) for a, b_ in zip(head, want))
-            if not ok_head:
-                self.violate("C14/paragraph-head", "paragraph starts %r, expected <%s>:" % (core.hx(p.split(b"\n", 1)[0][:80]), core.hx(want)))
-                continue
             rest = p.split(b"\n", 1)[1] if b"\n" in p else b""
+            cands = [r for r in remaining if head_ok(head, self.vstrip(r.addr))]
+            if not cands:
+                self.violate("C14/paragraph-head", "paragraph starts %r, which is none of the failed recipients still unnamed %r" % (
+                    core.hx(p.split(b"\n", 1)[0][:80]), [core.hx(self.vstrip(r.addr))[:60] for r in remaining[:4]]))
+                continue
+            r = next((x for x in cands if text_ok(x, rest)), cands[0])
+            remaining.remove(r)
             text = r.bounce_text or b""
             if text == b"(expired)":
                 if b"too long" not in rest:
